@@ -48,11 +48,12 @@ BAD_OPT_VALUES = [{'raw': 'x'}, {'raw': 1}, {'trivia': 'zz'}, {'trivia': ('all',
 # than the ones stopped by the guards at the API entry
 ERR_WEIGHTS = {'unparsable': 3, 'wrongcat': 5, 'wrongcat-ast': 3, 'wrongcat-fst': 3, 'arglike': 4, 'index': 1.5, 'optname': 0.5,
                'optvalue': 1, 'consumed': 1, 'nonroot': 0.7, 'nonroot-self': 1, 'ownroot': 0.7, 'undeletable': 2.5,
-               'to-nonraw': 1, 'one-false': 1, 'raw-unparsable': 1, 'raw-wrongcat': 2, 'badarg': 0.4}
+               'to-nonraw': 1, 'one-false': 1, 'raw-unparsable': 1, 'raw-wrongcat': 2, 'badarg': 0.4, 'vslice': 5,
+               'put_src': 2.5, 'root': 1.5, 'delete-field': 2}
 
 ERR_KINDS = ['unparsable', 'wrongcat', 'wrongcat-ast', 'wrongcat-fst', 'arglike', 'index', 'optname', 'optvalue',
              'consumed', 'nonroot', 'nonroot-self', 'ownroot', 'undeletable', 'to-nonraw', 'one-false', 'raw-unparsable',
-             'raw-wrongcat', 'badarg']
+             'raw-wrongcat', 'badarg', 'vslice', 'put_src', 'root', 'delete-field']
 
 
 def nodes_of(root):
@@ -164,6 +165,11 @@ def execute(root, req):
         return None
     if op == 'unpar':
         return f.unpar(**req['kw'])
+    if op == 'put_src':
+        kw = {'action': req['action']} if 'action' in req else {}
+        return f.put_src(req['text'], *req['loc'], **kw)
+    if op == 'reparse':
+        return f.reparse()
     raise AssertionError(op)
 
 
@@ -296,11 +302,207 @@ def _arglike_req(rng, nodes):
     return req
 
 
+ARGS_POOL = ['**kw', 'q', 'p, /', '*v', '*, k', 'a=1', 'x, y', '/', '*', 'a, /, b', '*, a, **k', 'z=3, w', '*v, *w', '**k1, **k2',
+             'a: int', '*, ', 'p, /, q, /']
+VPOOLS = {
+    ('arguments', '_all'): ARGS_POOL,
+    ('Dict', '_all'): ['**d', 'k: v', '1: 2, **e', 'a', '{a: b}', '**a, **b', 'k:', ': v'],
+    ('Compare', '_all'): ['a', '< b', 'a < b', 'in c', '==', 'a if b', 'not in', '< <'],
+    ('MatchMapping', '_all'): ['**r', '1: x', '"k": _, **r', 'a', '**r, 1: x', '{1: x}'],
+    ('MatchClass', '_attrs'): ['a=1', 'b', 'a=1, b', 'x, y=2', '*s', '**k'],
+    ('_pattern_attrlikes', '_attrs'): ['a=1', 'b', 'a=1, b', 'x, y=2', '*s'],
+    '_args': ['c12p', '*c12s', 'c12k=1', '**c12d', 'a, b=1', 'k=1, p', '**d, a', '*a, k=2, **d', 'x for x in y'],
+    '_body': ['c12v = 1', 'pass', '"""doc"""', 'except: pass', '1 +', 'case _: pass', 'return', 'a as b'],
+    'arglikes': ['c12p', '*c12s', 'c12k=1', '**c12d', 'k=1, p', '**d, a'],
+}
+GENERIC_SLICE = ['1 +', '((', '', 'x = 1', '**k', '*s', 'a as b', 'except: pass', 'c12v', 'c12a, c12b', 'k=1', 'pass', 'x: int']
+
+
+def _virtual_fields(a):
+    """slice fields pfst offers for this node: the virtual (underscore) ones and the real list fields"""
+    from fst.fst_put_slice import _PUT_SLICE_HANDLERS
+    out = []
+    cls = a.__class__
+    for (c, fld) in _PUT_SLICE_HANDLERS:
+        if c is cls:
+            out.append(fld)
+    return out
+
+
+def _vpool(a, fld):
+    cn = a.__class__.__name__
+    if (cn, fld) in VPOOLS:
+        return VPOOLS[(cn, fld)]
+    if fld in ('_args', '_bases'):
+        return VPOOLS['_args']
+    if fld in VPOOLS:
+        return VPOOLS[fld]
+    return GENERIC_SLICE
+
+
+def _flen(f, fld):
+    try:
+        v = getattr(f.a, fld, None)
+        if isinstance(v, list):
+            return len(v)
+        return len(getattr(f, fld))
+    except Exception:
+        return 2
+
+
+def _slice_req(rng, i, f, fld, src, errkind):
+    n = _flen(f, fld)
+    pos = rng.choice(list(range(n + 1)) + ['end', 0, n])
+    code = {'k': 'src', 'v': src}
+    c = rng.random()
+    req = {'errkind': errkind, 'code': code, 'node': i, 'field': fld}
+    ipos = n if pos == 'end' else pos
+    if c < 0.3:
+        req.update(op='insert', idx=pos, one=rng.choice([True, False, False, None]))
+    elif c < 0.55:
+        req.update(op='put_slice', start=ipos, stop=min(n, ipos + rng.choice([0, 0, 1, 2])), one=rng.choice([True, False, False, None]))
+    elif c < 0.65:
+        req.update(op=rng.choice(['append', 'prepend', 'extend', 'prextend']))
+    elif c < 0.8:
+        req.update(op='put', idx=min(ipos, max(n - 1, 0)))
+    elif c < 0.9:
+        req.update(op='setslice', start=ipos, stop=min(n, ipos + rng.choice([0, 1])))
+    else:
+        req.update(op='put', idx=min(ipos, max(n - 1, 0)), stop=min(n, ipos + 1), one=rng.choice([True, False]))
+    return req
+
+
+def _vslice_req(rng, nodes):
+    """slice requests to virtual fields (`_all`, `_args`, `_bases`, `_body`, `_attrs`) and to the list fields of special
+    slice containers, with code that breaks the field's ordering / category rules"""
+    cands = []
+    for i, f in enumerate(nodes):
+        vf = _virtual_fields(f.a)
+        if vf:
+            cands.append((i, f, vf))
+    if not cands:
+        return None
+    virt = [c for c in cands if any(x.startswith('_') for x in c[2])]
+    i, f, vf = rng.choice(virt if virt and rng.random() < 0.75 else cands)
+    under = [x for x in vf if x.startswith('_')]
+    fld = rng.choice(under) if under and rng.random() < 0.8 else rng.choice(vf)
+    pool = _vpool(f.a, fld)
+    src = rng.choice(pool) if rng.random() < 0.85 else rng.choice(GENERIC_SLICE)
+    return _slice_req(rng, i, f, fld, src, 'vslice')
+
+
+PUT_SRC_TEXT = ['(', ')', 'in', 'def', ':', '"', '1 +', '$', ' = = ', '[', 'lambda', '\\', 'x y', ',,', 'if', '\n  indented', '*',
+                'class', '@', '}', 'a b c']
+
+
+def _put_src_req(rng, root, nodes):
+    """raw source puts (`put_src`, action='reparse') that make the source invalid, at and inside node locations"""
+    locd = [(i, f) for i, f in enumerate(nodes) if f.loc is not None]
+    if not locd:
+        return None
+    i, f = rng.choice(locd)
+    ln, col, end_ln, end_col = f.loc
+    c = rng.random()
+    if c < 0.4:
+        loc = [ln, col, end_ln, end_col]
+    elif c < 0.6:
+        loc = [ln, col, ln, col]
+    elif c < 0.8:
+        loc = [end_ln, end_col, end_ln, end_col]
+    else:
+        loc = [ln, col, ln, col + 1] if (end_ln, end_col) > (ln, col) else [ln, col, ln, col]
+    req = {'errkind': 'put_src', 'op': 'put_src', 'node': rng.choice([i, i, 0]), 'text': rng.choice(PUT_SRC_TEXT), 'loc': loc}
+    c = rng.random()
+    if c < 0.25:
+        req['action'] = 'reparse'
+    elif c < 0.33:
+        req['action'] = rng.choice(['bogus', 'Reparse', 1])
+    return req
+
+
+def _root_req(rng, root, nodes):
+    """requests addressed to the root node itself"""
+    c = rng.random()
+    if c < 0.12:
+        return {'errkind': 'root', 'op': 'remove', 'node': 0}
+    pool = ([{'k': 'src', 'v': v} for v in UNPARSABLE[:8]] + [{'k': 'none'}, {'k': 'consumed'}, {'k': 'consumed'}, {'k': 'nonroot'},
+            {'k': 'ownroot'}, {'k': 'ownroot'}, ({'k': 'nonroot-self', 'idx': rng.randrange(1, len(nodes))} if len(nodes) > 1 else {'k': 'nonroot'}),
+            {'k': 'src', 'v': ''},
+            {'k': 'lines', 'v': '1 +\n2 +'}])
+    req = {'errkind': 'root', 'op': 'replace', 'node': 0, 'code': rng.choice(pool)}
+    c = rng.random()
+    if c < 0.15:
+        req['opts'] = rng.choice(BAD_OPT_NAMES + BAD_OPT_VALUES)
+        req['code'] = {'k': 'src', 'v': 'c12v'}
+    elif c < 0.25:
+        req['opts'] = {'raw': rng.choice([True, 'auto'])}
+    elif c < 0.32 and len(nodes) > 1:
+        req['to_idx'] = rng.randrange(1, len(nodes))
+        req['code'] = {'k': 'src', 'v': 'c12v'}
+    elif c < 0.4:
+        req['one'] = rng.choice([False, None])
+    return req
+
+
+def _delete_field_req(rng, nodes):
+    """delete (put None / del attribute) of ANY non-list field of any node: most are not deletable, some only in
+    certain states (`except*` type, a keyword's arg, ...)"""
+    cands = []
+    for i, f in enumerate(nodes):
+        for fld in f.a._fields:
+            if fld in ('ctx',):
+                continue
+            v = getattr(f.a, fld, None)
+            if not isinstance(v, list):
+                cands.append((i, fld))
+    if not cands:
+        return None
+    i, fld = rng.choice(cands)
+    if rng.random() < 0.7:
+        return {'errkind': 'delete-field', 'op': 'put', 'node': i, 'field': fld, 'idx': None, 'code': {'k': 'none'}}
+    return {'errkind': 'delete-field', 'op': 'delattr', 'node': i, 'field': fld}
+
+
+def systematic(rng, root, nodes, cap):
+    """deterministic families over a (small) tree: delete every node and every field; every position x every
+    rule-breaking code of every slice field (virtual ones included)"""
+    reqs = []
+    for i, f in enumerate(nodes):
+        if i:
+            reqs.append({'errkind': 'undeletable', 'op': 'remove', 'node': i})
+        for fld in f.a._fields:
+            if fld == 'ctx':
+                continue
+            v = getattr(f.a, fld, None)
+            if not isinstance(v, list):
+                reqs.append({'errkind': 'delete-field', 'op': 'put', 'node': i, 'field': fld, 'idx': None, 'code': {'k': 'none'}})
+        for fld in _virtual_fields(f.a):
+            n = _flen(f, fld)
+            for src in _vpool(f.a, fld):
+                for pos in sorted(set([0, n, max(n - 1, 0), 1 if n > 1 else 0])):
+                    for one in (True, False):
+                        reqs.append({'errkind': 'vslice', 'op': 'put_slice', 'node': i, 'field': fld, 'start': pos, 'stop': pos,
+                                     'one': one, 'code': {'k': 'src', 'v': src}})
+                    if pos < n:
+                        reqs.append({'errkind': 'vslice', 'op': 'put', 'node': i, 'field': fld, 'idx': pos, 'code': {'k': 'src', 'v': src}})
+    if len(reqs) > cap:
+        reqs = rng.sample(reqs, cap)
+    return reqs
+
+
 def gen_invalid(rng, root, nodes, errkind=None):
     tg = _targets(nodes)
+    kind = errkind or rng.choices(ERR_KINDS, [ERR_WEIGHTS[k] for k in ERR_KINDS])[0]
+    if kind == 'vslice':
+        return _vslice_req(rng, nodes)
+    if kind == 'put_src':
+        return _put_src_req(rng, root, nodes)
+    if kind == 'root':
+        return _root_req(rng, root, nodes)
+    if kind == 'delete-field':
+        return _delete_field_req(rng, nodes)
     if not tg:
         return None
-    kind = errkind or rng.choices(ERR_KINDS, [ERR_WEIGHTS[k] for k in ERR_KINDS])[0]
     tgt = rng.choice(tg)
     if tgt[4] in ('Load', 'Store', 'Del') and rng.random() < 0.9:      # expr_context nodes: keep a few only
         tgt = rng.choice(tg)
@@ -389,33 +591,186 @@ def _one_false(rng, tgt, valid):
 
 
 def gen_valid(rng, root, nodes, near=None):
-    """a simple edit that must succeed: Name(Load) -> Name, int Constant -> int, append a statement to the module"""
+    """a simple edit that must succeed: Name(Load) -> Name, int Constant -> int, rename of an arg / handler name / keyword,
+    append a statement to a module"""
     cands = []
     for i, f in enumerate(nodes):
         a = f.a
-        if isinstance(a, ast.Name) and isinstance(a.ctx, ast.Load) and f.parent is not None:
-            cands.append((i, 'c12n'))
-        elif isinstance(a, ast.Constant) and type(a.value) is int and f.parent is not None \
-                and not isinstance(f.parent.a, (ast.JoinedStr, ast.FormattedValue)):
-            cands.append((i, '42'))
+        if f.parent is None:
+            continue
+        if isinstance(a, ast.Name) and isinstance(a.ctx, ast.Load):
+            cands.append({'op': 'replace', 'node': i, 'code': {'k': 'src', 'v': 'c12n'}})
+        elif isinstance(a, ast.Constant) and type(a.value) is int and not isinstance(f.parent.a, (ast.JoinedStr, ast.FormattedValue)):
+            cands.append({'op': 'replace', 'node': i, 'code': {'k': 'src', 'v': '42'}})
+        elif isinstance(a, ast.arg):
+            cands.append({'op': 'put', 'node': i, 'field': 'arg', 'idx': None, 'code': {'k': 'src', 'v': 'c12a'}})
+        elif isinstance(a, ast.ExceptHandler) and a.name:
+            cands.append({'op': 'put', 'node': i, 'field': 'name', 'idx': None, 'code': {'k': 'src', 'v': 'c12e'}})
+        elif isinstance(a, ast.keyword) and a.arg:
+            cands.append({'op': 'put', 'node': i, 'field': 'arg', 'idx': None, 'code': {'k': 'src', 'v': 'c12k'}})
     if near is not None and cands and rng.random() < 0.6:
-        lo = near
-        close = sorted(cands, key=lambda c: abs(c[0] - lo))[:3]
-        i, src = rng.choice(close)
-        return {'errkind': 'valid', 'op': 'replace', 'node': i, 'code': {'k': 'src', 'v': src}}
+        close = sorted(cands, key=lambda c: abs(c['node'] - near))[:3]
+        return {'errkind': 'valid', **rng.choice(close)}
     if cands and rng.random() < 0.85:
-        i, src = rng.choice(cands)
-        return {'errkind': 'valid', 'op': 'replace', 'node': i, 'code': {'k': 'src', 'v': src}}
+        return {'errkind': 'valid', **rng.choice(cands)}
     if isinstance(root.a, ast.Module):
         return {'errkind': 'valid', 'op': 'append', 'node': 0, 'field': 'body', 'code': {'k': 'src', 'v': 'c12s = 1'}}
+    if cands:
+        return {'errkind': 'valid', **rng.choice(cands)}
     return None
+
+
+# ---------------------------------------------------------------------------------------------------------------------
+# trees: (src, mode) specs; Module roots, other roots, special slice containers
+
+SPECIAL = [
+    # handlers / cases
+    ('except* ValueError as exc: pass\nexcept* KeyError as other: pass', '_ExceptHandlers'),
+    ('except* (A, B) as group:\n    handle(group)\nexcept* C as c:\n    pass', '_ExceptHandlers'),
+    ('except*   E   as   e  :  # comment\n    pass', '_ExceptHandlers'),
+    ('except E as e: pass\nexcept (F, G): pass\nexcept: pass', '_ExceptHandlers'),
+    ('except* E: pass', 'ExceptHandler'), ('except E as e: pass', 'ExceptHandler'), ('except* E as e:\n    pass', 'ExceptHandler'),
+    ('try: pass\nexcept* ValueError as exc: pass\nexcept* K as k: pass', 'exec'),
+    ('try:\n    a\nexcept E as e:\n    b\nexcept:\n    c\nelse:\n    d\nfinally:\n    f', 'exec'),
+    ('case 1: pass\ncase [a, *b]: pass\ncase {"k": v, **r} if v: pass', '_match_cases'),
+    ('case C(p, q=r) as s: pass', 'match_case'),
+    ('match x:\n    case {1: a, **r}: pass\n    case C(a, b=c): pass\n    case [a, *r] | (1 | 2): pass', 'exec'),
+    # arglikes
+    ('a, *b, c=1, **d', '_arglikes'), ('k=1, **d', '_arglikes'), ('*a, *b', '_arglikes'), ('a', '_arglikes'),
+    ('f(a, *b, c=1, **d)', 'exec'), ('f(**d)', 'exec'), ('f(k=1)', 'exec'), ('f(x for x in y)', 'exec'), ('f()', 'exec'),
+    ('class C(A, *B, k=1, **d): pass', 'exec'), ('class C(metaclass=M): pass', 'exec'), ('class C: pass', 'exec'),
+    # other containers
+    ('a = b = ', '_Assign_targets'), ('a, b = c.d = e[0] = ', '_Assign_targets'), ('@a\n@b(1)\n@c.d', '_decorator_list'),
+    ('a, b as c', '_aliases'), ('a.b, c as d', '_Import_names'), ('a, b as c', '_ImportFrom_names'), ('*', '_ImportFrom_names'),
+    ('a as b, c, d as (e, f)', '_withitems'), ('T, *Ts, **P', '_type_params'), ('T: int, U', '_type_params'),
+    ('for a in b if c for d in e', '_comprehensions'), ('async for a in b', '_comprehensions'), ('if a if b', '_comprehension_ifs'),
+    ('a=1, b=2', '_pattern_attrlikes'), ('x, y, a=1', '_pattern_attrlikes'),
+    ('from m import a, b as c', 'exec'), ('from m import *', 'exec'), ('import a.b, c as d', 'exec'),
+    ('with a as b, c: pass', 'exec'), ('with (a as b, c as d): pass', 'exec'),
+    ('def f[T, *Ts, **P](x: T): pass', 'exec'), ('type A[T: int] = list[T]', 'exec'),
+    ('x = [i for i in a if i if j for k in l]', 'exec'), ('del a, b[0], c.d', 'exec'), ('a = b = c', 'exec'),
+    ('global g1, g2', 'exec'), ('x = {**a, "b": c, **d}', 'exec'), ('x = a < b <= c != d', 'exec'), ('x = a and b and c', 'exec'),
+    # arguments of every shape
+    ('*, a, b=1', 'arguments'), ('*, k', 'arguments_lambda'), ('a, /, b, *c, d, **e', 'arguments'), ('**kw', 'arguments'),
+    ('a, /', 'arguments'), ('', 'arguments'), ('*a', 'arguments'), ('a, b=1', 'arguments'), ('a, /, *, b', 'arguments'),
+    ('*a, b=1, **c', 'arguments'), ('a=1, /, b=2, *, c=3', 'arguments'), ('a: int, *b: str, **c: float', 'arguments'),
+    ('def f(*, a, b=1): pass', 'exec'), ('def g(*, key): return key', 'exec'), ('x = lambda *, k: k', 'exec'),
+    ('def h(s, *, a): pass', 'exec'), ('def k(p, /, *, a): pass', 'exec'), ('def f(a, /): pass', 'exec'), ('def f(**kw): pass', 'exec'),
+    ('def f(*a): pass', 'exec'), ('def f(): pass', 'exec'), ('def f(a, /, b: int = 1, *c, d, e=2, **g) -> int: pass', 'exec'),
+    ('f = lambda a, /, b, *, c: 0', 'exec'), ('f = lambda: 0', 'exec'), ('f = lambda **k: k', 'exec'), ('f = lambda *a, b=1: b', 'exec'),
+    ('async def f(*, a, **k): pass', 'exec'), ('def f(a=1, *, b): pass', 'exec'),
+    # non-Module roots
+    ('a + b * c', 'expr'), ('f(a, b=1)', 'expr'), ('[a, b, *c]', 'expr'), ('{a: b, **c}', 'expr'), ('a if b else c', 'expr'),
+    ('a < b < c', 'expr'), ('lambda *, k: k', 'expr'), ("f'{a!r:>{w}}'", 'expr'), ('a[b:c, d]', 'expr'), ('(a, b)', 'expr'),
+    ('x = 1', 'stmt'), ('if a: b\nelse: c', 'stmt'), ('def f(*, a): pass', 'stmt'), ('for a in b: pass', 'stmt'),
+    ('a as b', 'withitem'), ('k=1', 'keyword'), ('**k', 'keyword'), ('a: int', 'arg'), ('a as b', 'alias'), ('for a in b if c', 'comprehension'),
+    ('[a, *b]', 'pattern'), ('{1: a, **r}', 'pattern'), ('C(a, b=c)', 'pattern'), ('a | b', 'pattern'), ('a, b', 'Tuple'),
+    ('a; b', 'single'), ('a + b', 'eval'), ('T: int', 'type_param'), ('b:c', 'expr_slice'), ('*a, b', '_expr_arglikes'),
+]
+
+
+def build(spec):
+    from fst import FST
+    return FST(spec['src'], spec.get('mode') or 'exec')
+
+
+def dump(root):
+    a = root.a
+    if a is None:
+        return '<root.a is None>'
+    return ast.dump(a, include_attributes=True)
+
+
+def fresh_diff(root, mode):
+    """None if the live tree equals a from-scratch parse of its own source (Module roots: CPython; other roots: pfst's own
+    parser in the same mode, which is what a fresh twin is)"""
+    if (mode or 'exec') == 'exec' and isinstance(root.a, ast.Module):
+        return util.tree_equals_parse(root)
+    try:
+        t = build({'src': root.src, 'mode': mode})
+    except Exception as e:     # noqa: BLE001
+        return f'source no longer accepted in mode {mode}: {type(e).__name__}'
+    d1, d2 = dump(root), dump(t)
+    return None if d1 == d2 else 'differs from fresh tree ' + util.first_diff(d1, d2)
+
+
+def derive_specs(src, rng, n):
+    """special slice containers and non-Module roots cut out of a corpus program with get_slice()/copy(): returned as
+    (source, mode) specs when a fresh FST(source, mode) reproduces them exactly"""
+    from fst import FST
+    out = []
+    try:
+        root = FST(src, 'exec')
+    except Exception:
+        return out
+    nodes = nodes_of(root)
+    cands = []
+    for i, f in enumerate(nodes):
+        if f.parent is None:
+            continue
+        for fld in _virtual_fields(f.a):
+            if _flen(f, fld):
+                cands.append((i, fld))
+        if isinstance(f.a, (ast.arguments, ast.ExceptHandler, ast.match_case, ast.withitem, ast.keyword, ast.arg, ast.alias,
+                            ast.comprehension, ast.pattern, ast.Call, ast.Lambda, ast.Dict, ast.Compare, ast.Tuple, ast.stmt)):
+            cands.append((i, None))
+    rng.shuffle(cands)
+    for i, fld in cands[:n * 3]:
+        f = nodes[i]
+        try:
+            if fld is None:
+                s = f.copy()
+            else:
+                nn = _flen(f, fld)
+                a = rng.randrange(nn)
+                s = f.get_slice(a, rng.choice([nn, 'end', min(nn, a + 1)]), fld)
+            mode = s.a.__class__.__name__
+            if mode == 'Module':
+                mode = 'exec'
+            spec = {'src': s.src, 'mode': mode}
+            if dump(build(spec)) != dump(s):
+                continue
+        except Exception:     # noqa: BLE001
+            continue
+        out.append(spec)
+        if len(out) >= n:
+            break
+    registry().clear()
+    return out
 
 
 # ---------------------------------------------------------------------------------------------------------------------
 # the check
 
+def links(root):
+    """'' if every AST node of the tree carries its FST node (`a.f`, `f.a is a`) whose `parent` is the FST node of the AST
+    parent; else a description.  Plain attribute traversal, no pfst algorithm involved."""
+    a0 = root.a
+    if a0 is None:
+        return 'root.a is None'
+    if getattr(a0, 'f', None) is not root:
+        return 'root.a.f is not root'
+    stack = [(a0, root)]
+    while stack:
+        a, f = stack.pop()
+        for name, child in ast.iter_fields(a):
+            for c in (child if isinstance(child, list) else [child]):
+                if isinstance(c, ast.AST):
+                    cf = getattr(c, 'f', None)
+                    if cf is None or getattr(cf, 'a', None) is not c:
+                        return f'{type(a).__name__}.{name}: {type(c).__name__} has no (matching) FST node'
+                    if cf.parent is not f:
+                        return f'{type(a).__name__}.{name}: FST parent link of {type(c).__name__} is wrong'
+                    stack.append((c, cf))
+    return ''
+
+
 def state(root):
-    return root.src, ast.dump(root.a, include_attributes=True)
+    try:
+        lk = links(root)
+    except Exception as e:     # noqa: BLE001
+        lk = f'links unreadable: {type(e).__name__}'
+    return root.src, dump(root), lk
 
 
 def registry():
@@ -433,9 +788,9 @@ def target_sig(root, req):
     try:
         nodes = nodes_of(root)
         f = nodes[req['node']]
-        if req['op'] in ('replace', 'remove'):
+        if req['op'] in ('replace', 'remove', 'unpar', 'put_src', 'reparse'):
             p = f.parent
-            return f"{req['op']}|{p.a.__class__.__name__ if p else 'root'}.{f.pfield.name if p else ''}"
+            return f"{req['op']}|{p.a.__class__.__name__ if p else 'root:' + f.a.__class__.__name__}.{f.pfield.name if p else ''}"
         return f"{req['op']}|{f.a.__class__.__name__}.{req.get('field')}"
     except Exception:
         return f"{req.get('op')}|?"
@@ -470,6 +825,8 @@ def in_reparse(exc):
 
 
 def op_family(req):
+    if req['op'] in ('put_src', 'reparse'):
+        return 'src'
     if req['op'] == 'put' and 'stop' in req:
         return 'slice'
     if req['op'] == 'replace' and req.get('one', True) is not True:
@@ -478,184 +835,229 @@ def op_family(req):
 
 
 def is_raw(req):
-    return bool((req.get('opts') or {}).get('raw'))
+    return req['op'] in ('put_src', 'reparse') or bool((req.get('opts') or {}).get('raw'))
 
 
-def check_failing(src_before, root, req, exc, before, rng, applied):
-    """`req` raised `exc` on `root` whose state before the call was `before`.  Returns (failures, info)."""
-    fails = []
-    tsig = target_sig(root, req) if state(root) == before else None
-    if tsig is None:
-        try:
-            tsig = target_sig(__import__('fst').FST(src_before, 'exec'), req)
-        except Exception:
-            tsig = f"{req.get('op')}|?"
+def base_sig(req, exc):
     site = raise_site(exc)
     # signature: raw or not | op family | exception class @ pfst function that raised (= the defect site); the target
     # kind and requested error kind are in the witness / description
+    if req.get('node') == 0 and req['op'] in ('replace', 'remove'):
+        # FST.replace / remove on the root has its own code path (no _put_one guards): keyed by the kind of code passed
+        return f"root|{(req.get('code') or {}).get('k', 'none')}|{type(exc).__name__}@{site}", site
     if is_raw(req):
         # raw mode: the defect site is characterised by whether the reparse itself raised or the code after it
-        base = f"raw|{op_family(req)}|{'in-reparse' if in_reparse(exc) else 'after-reparse'}|{type(exc).__name__}"
-    else:
-        base = f"nonraw|{op_family(req)}|{type(exc).__name__}@{site}"
-    wit = {'src': src_before, 'failing': req, 'exc': f'{type(exc).__name__}: {str(exc)[:160]}', 'raise_site': site,
-           'target': tsig, 'prefix': applied}
-    after = state(root)
+        return f"raw|{op_family(req)}|{'in-reparse' if in_reparse(exc) else 'after-reparse'}|{type(exc).__name__}", site
+    return f"nonraw|{op_family(req)}|{type(exc).__name__}@{site}", site
+
+
+def check_failing(spec, root, req, exc, before, rng, applied, followup=None):
+    """`req` raised `exc` on `root` (built from `spec`, state before the call `before`).  Returns (failures, info)."""
+    fails = []
+    mode = spec.get('mode') or 'exec'
     reg = registry()
-    if reg:
-        fails.append((f'C12|registry-stale|{base}', f'_MODIFYING not empty after a raising {req["op"]}: {len(reg)} entr(y/ies)', dict(wit)))
-        reg.clear()
+    saved = dict(reg)           # what the failed call left in the registry
+    reg.clear()
+    try:
+        tsig = target_sig(build(spec), req)
+    except Exception:     # noqa: BLE001
+        tsig = f"{req.get('op')}|?"
+    base, site = base_sig(req, exc)
+    wit = {'src': spec['src'], 'mode': mode, 'failing': req, 'exc': f'{type(exc).__name__}: {str(exc)[:160]}', 'raise_site': site,
+           'target': tsig, 'prefix': applied}
+    stale = bool(saved)
+    if stale:
+        fails.append((f'C12|registry-stale|{base}', f'_MODIFYING not empty after a raising {req["op"]} on {tsig.split("|", 1)[1]} '
+                      f'({req["errkind"]} request, {type(exc).__name__}): {len(saved)} entr(y/ies); every later edit of another node of '
+                      f'this tree raises RuntimeError', dict(wit)))
+    try:
+        after = state(root)
+    except Exception as e2:     # noqa: BLE001
+        after = ('<state unreadable>', f'{type(e2).__name__}: {e2}')
     if after != before:
-        what = 'source' if after[0] != before[0] else 'tree (structure/positions)'
+        what = ('source' if after[0] != before[0] else 'tree (structure/positions)' if after[1] != before[1]
+                else 'FST node links (' + str(after[2]) + ')')
         w = dict(wit)
         w['after_src'] = after[0]
-        w['diff'] = util.first_diff(after[1], before[1]) if after[0] == before[0] else util.first_diff(after[0], before[0])
+        w['diff'] = (util.first_diff(after[0], before[0]) if after[0] != before[0] else util.first_diff(after[1], before[1])
+                     if after[1] != before[1] else str(after[2]))
         fails.append((f'C12|state-changed|{base}', f'{req["op"]} on {tsig.split("|", 1)[1]} ({req["errkind"]} request) raised '
                       f'{type(exc).__name__} in {site} but the {what} changed', w))
         return fails, None        # no follow-up on a tree already known to be damaged
-    # follow-up valid edit vs. fresh twin
-    from fst import FST
+    # follow-up valid edit on the SAME tree vs. a fresh twin (the registry is left as the failed call left it)
     nodes = nodes_of(root)
-    v = gen_valid(rng, root, nodes, near=req.get('node'))
+    v = followup or gen_valid(rng, root, nodes, near=req.get('node'))
     if v is None:
         return fails, 'no-followup-candidate'
     try:
-        twin = FST(src_before, 'exec')
-    except Exception:
+        twin = build(spec)
+    except Exception:     # noqa: BLE001
         return fails, 'twin-unparsable'
     t_exc = r_exc = None
     try:
         execute(twin, v)
     except Exception as e:     # noqa: BLE001
         t_exc = e
+    reg.clear()
+    reg.update(saved)
     try:
         execute(root, v)
     except Exception as e:     # noqa: BLE001
         r_exc = e
-    if reg:
-        reg.clear()
+    reg.clear()
     wit['followup'] = v
+    for f_ in fails:
+        f_[2]['followup'] = v
     if t_exc is not None:
         if r_exc is None:
             return fails, 'followup-raises-on-twin-only'
         return fails, 'followup-raises-on-both'
     if r_exc is not None:
-        w = dict(wit)
-        w['followup_exc'] = f'{type(r_exc).__name__}: {str(r_exc)[:160]}'
-        fails.append((f'C12|followup-raises|{base}', f'after the failed {req["op"]} a valid edit raises {type(r_exc).__name__} '
-                      f'({str(r_exc)[:80]}) while it succeeds on a fresh twin', w))
+        fx = f'{type(r_exc).__name__}: {str(r_exc)[:160]}'
+        if stale:       # the visible consequence of the stale registry entry: same defect, already reported
+            fails[0][2]['followup_exc'] = fx
+        else:
+            w = dict(wit)
+            w['followup_exc'] = fx
+            fails.append((f'C12|followup-raises|{base}', f'after the failed {req["op"]} a valid edit raises {type(r_exc).__name__} '
+                          f'({str(r_exc)[:80]}) while it succeeds on a fresh twin', w))
         return fails, None
     rs, ts = state(root), state(twin)
     if rs != ts:
         w = dict(wit)
         w['root_src'], w['twin_src'] = rs[0], ts[0]
-        w['diff'] = util.first_diff(rs[0], ts[0]) if rs[0] != ts[0] else util.first_diff(rs[1], ts[1])
+        w['diff'] = (util.first_diff(rs[0], ts[0]) if rs[0] != ts[0] else util.first_diff(rs[1], ts[1]) if rs[1] != ts[1]
+                     else f'links: {rs[2]!r} vs {ts[2]!r}')
         fails.append((f'C12|followup-differs|{base}', f'after the failed {req["op"]} a valid edit gives a different result than on a fresh twin', w))
         return fails, None
-    d = util.tree_equals_parse(root)
-    if d:
+    if fails:
+        return fails, None
+    if fresh_diff(root, mode):
         return fails, 'followup-c01-both'      # identical on the twin: not caused by the failed edit (C01's business)
     return fails, 'ok'
 
 
-def run_sequence(arg):
-    """(src, seed, n_seq, k, errkinds|None) -> {'fails': [...], 'tally': {...}, 'n': counts}"""
-    src, seed, n_seq, k, only = arg
-    from fst import FST
-    rng = random.Random(seed)
-    out = {'fails': [], 'tally': {}, 'n_raise': 0, 'n_ok': 0, 'keys': []}
+class _Out:
+    def __init__(self):
+        self.d = {'fails': [], 'tally': {}, 'n_raise': 0, 'n_ok': 0, 'keys': []}
 
-    def tally(g, key):
-        d = out['tally'].setdefault(g, {})
+    def tally(self, g, key):
+        d = self.d['tally'].setdefault(g, {})
         d[str(key)] = d.get(str(key), 0) + 1
 
+
+def _one_call(out, spec, root, req, rng, applied, step):
+    """execute one request; returns 'raised-ok' | 'raised-stop' | 'ok' | 'ok-stop'"""
     reg = registry()
-    for _ in range(n_seq):
-        try:
-            root = FST(src, 'exec')
-        except Exception:
-            tally('skip', 'source-not-accepted')
-            return out
-        if util.tree_equals_parse(root):
-            tally('skip', 'fresh-tree-not-equal-parse')
-            return out
+    before = state(root)
+    cur = {'src': before[0], 'mode': spec.get('mode') or 'exec'}
+    tsig = target_sig(root, req)
+    try:
+        execute(root, req)
+    except Exception as e:     # noqa: BLE001
+        d = out.d
+        d['n_raise'] += 1
+        d['keys'].append(hash((cur['src'], cur['mode'], repr(sorted(_short(req).items(), key=str)))))
+        out.tally('error_kind_requested', req['errkind'])
+        out.tally('exception_class', type(e).__name__)
+        out.tally('op', req['op'])
+        out.tally('target', tsig.split('|', 1)[1])
+        out.tally('root_kind', root.a.__class__.__name__ if root.a is not None else 'None')
+        out.tally('step_in_sequence', step)
+        fails, info = check_failing(cur, root, req, e, before, rng, list(applied))
+        if info:
+            out.tally('followup', info)
+        d['fails'].extend(fails)
+        if fails or info not in ('ok', 'no-followup-candidate'):
+            return 'raised-stop'
+        return 'raised-ok'
+    out.d['n_ok'] += 1
+    out.tally('succeeded_requests', req['errkind'])
+    if reg:
+        out.d['fails'].append((f'C12|registry-stale-after-success|{tsig}|{req["errkind"]}',
+                               f'_MODIFYING not empty after a successful {req["op"]}',
+                               {'src': cur['src'], 'mode': cur['mode'], 'failing': req, 'prefix': list(applied)}))
         reg.clear()
-        applied = []
-        for step in range(k):
-            nodes = nodes_of(root)
-            if rng.random() < 0.22:
-                req = gen_valid(rng, root, nodes)
-            else:
-                req = gen_invalid(rng, root, nodes, rng.choice(only) if only else None)
-            if req is None:
-                continue
-            before = state(root)
-            src_before = before[0]
-            tsig = target_sig(root, req)
-            try:
-                execute(root, req)
-            except Exception as e:     # noqa: BLE001
-                out['n_raise'] += 1
-                out['keys'].append(hash((src_before, repr(sorted(_short(req).items(), key=str)))))
-                tally('error_kind_requested', req['errkind'])
-                tally('exception_class', type(e).__name__)
-                tally('op', req['op'])
-                tally('target', tsig.split('|', 1)[1])
-                tally('step_in_sequence', step)
-                fails, info = check_failing(src_before, root, req, e, before, rng, list(applied))
-                if info:
-                    tally('followup', info)
-                out['fails'].extend(fails)
-                if fails or info not in ('ok', 'no-followup-candidate'):
-                    break           # damaged tree, or no twin comparison possible: start a new sequence
-                applied.append({'_failed_then_followup': req['errkind']})
-                continue
-            out['n_ok'] += 1
-            tally('succeeded_requests', req['errkind'])
-            if reg:
-                # a successful call that leaves the registry locked makes every later edit of this tree fail
-                out['fails'].append((f'C12|registry-stale-after-success|{tsig}|{req["errkind"]}',
-                                     f'_MODIFYING not empty after a successful {req["op"]}',
-                                     {'src': src_before, 'failing': req, 'prefix': list(applied)}))
+        return 'ok-stop'
+    try:
+        bad = fresh_diff(root, cur['mode']) or links(root)
+    except Exception:     # noqa: BLE001
+        bad = 'unreadable'
+    if bad:
+        out.tally('abandoned', 'tree-not-equal-fresh-after-successful-edit:' + req['errkind'])
+        return 'ok-stop'
+    return 'ok'
+
+
+def run_tree(arg):
+    """(spec, seed, n_seq, k, errkinds|None, systematic_cap) -> {'fails': [...], 'tally': {...}, counts}
+    spec = {'src', 'mode'} or {'src', 'derive': n}: containers / non-Module roots cut out of the program"""
+    spec, seed, n_seq, k, only, cap = arg
+    rng = random.Random(seed)
+    out = _Out()
+    specs = [spec]
+    if spec.get('derive'):
+        specs = derive_specs(spec['src'], rng, spec['derive'])
+        out.tally('derived_trees', len(specs))
+    reg = registry()
+    for sp in specs:
+        mode = sp.get('mode') or 'exec'
+        try:
+            root = build(sp)
+        except Exception:     # noqa: BLE001
+            out.tally('skip', 'source-not-accepted')
+            continue
+        if fresh_diff(root, mode) or links(root):
+            out.tally('skip', 'fresh-tree-not-equal-parse' if not links(root) else 'fresh-tree-links:' + links(root))
+            continue
+        out.tally('tree_mode', mode)
+        # random sequences mixing failing and succeeding edits
+        for _ in range(n_seq):
+            root = build(sp)
+            reg.clear()
+            applied = []
+            for step in range(k):
+                nodes = nodes_of(root)
+                if rng.random() < 0.22:
+                    req = gen_valid(rng, root, nodes)
+                else:
+                    req = gen_invalid(rng, root, nodes, rng.choice(only) if only else None)
+                if req is None:
+                    continue
+                r = _one_call(out, sp, root, req, rng, applied, step)
+                if r.endswith('stop'):
+                    break
+                applied.append(req if r == 'ok' else {'_failed_then_followup': req['errkind']})
+        # systematic families, each request on a fresh tree
+        if cap:
+            root = build(sp)
+            for req in systematic(rng, root, nodes_of(root), cap):
                 reg.clear()
-                break
-            applied.append(req)
-            if util.tree_equals_parse(root):
-                tally('abandoned', 'tree-not-equal-parse-after-successful-edit:' + req['errkind'])
-                break
-    return out
+                root = build(sp)
+                _one_call(out, sp, root, req, rng, [], 'systematic')
+    reg.clear()
+    return out.d
+
+
+def run_sequence(arg):
+    """compatibility: (src, seed, n_seq, k, errkinds|None)"""
+    src, seed, n_seq, k, only = arg
+    return run_tree(({'src': src, 'mode': 'exec'}, seed, n_seq, k, only, 0))
 
 
 def replay_witness(w):
     """-> list of (sig, what, witness) still failing"""
-    from fst import FST
     rng = random.Random(0)
-    root = FST(w['src'], 'exec')
+    spec = {'src': w['src'], 'mode': w.get('mode') or 'exec'}
+    root = build(spec)
     registry().clear()
     req = w['failing']
     before = state(root)
     try:
         execute(root, req)
     except Exception as e:     # noqa: BLE001
-        fails, info = check_failing(w['src'], root, req, e, before, rng, [])
-        if not fails and w.get('followup'):
-            # the recorded follow-up rather than a random one
-            root = FST(w['src'], 'exec')
-            try:
-                execute(root, req)
-            except Exception:     # noqa: BLE001
-                pass
-            twin = FST(w['src'], 'exec')
-            try:
-                execute(twin, w['followup'])
-                try:
-                    execute(root, w['followup'])
-                except Exception as e2:     # noqa: BLE001
-                    return [('replay', f'follow-up raises {e2!r}', w)]
-                if state(root) != state(twin):
-                    return [('replay', 'follow-up differs from twin', w)]
-            except Exception:     # noqa: BLE001
-                pass
+        fails, info = check_failing(spec, root, req, e, before, rng, [], followup=w.get('followup'))
+        registry().clear()
         return fails
     if registry():
         registry().clear()
